@@ -511,7 +511,7 @@ CASES = [
  dict(name="c18-flush-test-before-dispatch", ids=["C18"], rule="C18.R2d", subs=[(BW, """        _dispatch_transit_event_to_sinks(transit_event, thread_context.thread_id(),
                                          thread_context.thread_name());
 
-        // We also need to check the severity""", """        // We also need to check the severity"""), (BW, """              { _dispatch_transit_event_to_sinks(te, thread_id, thread_name); });
+        // We also need to check the severity""", """        // We also need to check the severity"""), (BW, """              { _dispatch_backtrace_transit_event(te, thread_id, thread_name); });
           }
         }
       }
@@ -519,7 +519,7 @@ CASES = [
       {
         if (transit_event.logger_base->backtrace_storage)
         {
-          // this is a backtrace log""", """              { _dispatch_transit_event_to_sinks(te, thread_id, thread_name); });
+          // this is a backtrace log""", """              { _dispatch_backtrace_transit_event(te, thread_id, thread_name); });
           }
         }
         _dispatch_transit_event_to_sinks(transit_event, thread_context.thread_id(),
